@@ -65,10 +65,26 @@ func c20Locations(c *vk.Ctx, rng *rand.Rand) int {
 			}
 		}
 		var serial int64 = 100
-		handshake := func(url string) {
+		handshake := func(url ...string) {
 			serial++
-			leaf := ca.Leaf(pki.LeafOpts{CN: "loc leaf", Serial: big.NewInt(serial), CDP: []string{url}})
+			leaf := ca.Leaf(pki.LeafOpts{CN: "loc leaf", Serial: big.NewInt(serial), CDP: url})
 			w.HandshakeTimeout(pki.Chain(leaf.Cert, ca), 30*time.Second)
+		}
+		// a location may be a SET of URLs (one distribution point with several names, or several distribution points): every
+		// certificate that names the same set means the same location, at every handshake and after every restart
+		sets := [][]string{
+			{org.URL + "/set/a.crl", org.URL + "/set/b.crl"},
+			{org.URL + "/set/c.crl", org.URL + "/set/d.crl", org.URL + "/set/e.crl", org.URL + "/set/f.crl"},
+			{"ldap://directory.example/cn=Location%20CA?certificateRevocationList;binary", org.URL + "/set/g.crl", org.URL + "/set/h.crl", org.URL + "/set/i.crl", org.URL + "/set/j.crl"},
+		}
+		for _, l := range "abcdefghij" {
+			org.SetBody("/set/"+string(l)+".crl", crlBytes)
+		}
+		for range 4 {
+			for _, set := range sets {
+				handshake(set...)
+				n++
+			}
 		}
 		for _, p := range paths {
 			org.SetBody(p, crlBytes)
@@ -103,10 +119,10 @@ func c20Locations(c *vk.Ctx, rng *rand.Rand) int {
 			}
 		}
 		states := w.EntryStates()
-		wantDistinct := len(paths) + len(equalPairs) // every path is a distinct location; an equal pair is one location
+		wantDistinct := len(paths) + len(equalPairs) + len(sets) // every path is a distinct location; an equal pair is one location; a set of URLs is one location
 		if len(states) != wantDistinct {
 			c.Violation(fmt.Sprintf("%s:distinct-locations-share-a-store-or-equal-locations-do-not", backendName(disk)),
-				fmt.Sprintf("%d distinct locations (and %d pairs that are equal after normalisation) produced %d stores", len(paths), len(equalPairs), len(states)), rep)
+				fmt.Sprintf("%d distinct locations (%d pairs that are equal after normalisation, %d sets of URLs named by four certificates each) produced %d stores", len(paths), len(equalPairs), len(sets), len(states)), rep)
 		}
 		if disk {
 			before := append([]string{}, l.Stores...)
@@ -118,6 +134,11 @@ func c20Locations(c *vk.Ctx, rng *rand.Rand) int {
 			}
 			for _, pr := range equalPairs {
 				handshake(pr[1])
+			}
+			for range 4 {
+				for _, set := range sets {
+					handshake(set...)
+				}
 			}
 			after := w.Listing().Stores
 			if fmt.Sprint(before) != fmt.Sprint(after) {
